@@ -1,151 +1,282 @@
--------------------------------- MODULE Cqueue --------------------------------
-(* DRAFT (round 0).  src/cqueue.rs + select! (src/macros.rs): oneshot select arms.
-   An arm = top half; EventSender::send (check_cancel; yield_with -> the worker pushes the
-   event *carrying the suspended arm* and wakes the poller); bottom half (run by the poller
-   inside poll via continue_bottom); EventSender::drop (push Done, cnt -= 1, wake).
-   Owner: add arms (spawn, then cnt += 1), poll(None) once (select!), then Cqueue::drop:
-   cancel every unfinished arm and poll until Finished. *)
+------------------------------- MODULE Cqueue -------------------------------
+(* Literal model of src/cqueue.rs (EventSender::send / drop, Cqueue::poll, check_panic, Drop) as
+   used by cqueue::scope and select!.  Actors: the owner "o" (poller, a thread or a coroutine) and the
+   select coroutines (arms).  pc[a] = name of the verification point the actor is stopped at
+   (cq.* in cqueue.rs, cqsub.* = kernel side of an arm's yield, blk.* in the poller's Blocker, cqa.* /
+   cqo.* placed by the harness in the arm bodies / the owner's closure); labels without a dot are internal.
+
+   An arm runs  top half -> send (check_cancel, yield; the kernel side pushes the event *with the
+   suspended coroutine inside* and wakes the poller) -> bottom half (resumed by the poller's
+   continue_bottom, nested on the poller's stack) -> ... -> end: EventSender::drop pushes Done,
+   decrements cnt, wakes the poller; consuming Done joins the arm (check_panic).
+   The owner polls NPoll times, then leaves the scope: Cqueue::drop cancels every unfinished arm and
+   polls until Finished.
+
+   Fix8 = FALSE is the pinned tree: poll() returns Finished as soon as it reads cnt = 0 after an empty
+   pop, although the arm that made it 0 pushed its Done event *before* the decrement - the event is
+   left unconsumed, nobody joins that arm, and the owner can leave the scope while the arm still
+   executes the rest of EventSender::drop on the dead Cqueue (defect F8).  Fix8 = TRUE pops once more
+   after reading cnt = 0.                                                                *)
 EXTENDS Integers, FiniteSets, Sequences, TLC
-CONSTANTS Arms,
-          Fix13,   \* FALSE = as written; TRUE = candidate repair: after registering, re-check cnt too
-          Fix8     \* FALSE = as written; TRUE = candidate repair: re-pop once after reading cnt = 0
-VARIABLES evq, cnt, toWake, token,
-          pcA, cancelBit, topDone, bottomRuns, sentEv, host,   \* per arm; host: "worker"|"poller"|"none"
-          pcO, added, selectRet, pollRets, inDrop, cur, consumedEv, bad
-vars == <<evq, cnt, toWake, token, pcA, cancelBit, topDone, bottomRuns, sentEv, host,
-          pcO, added, selectRet, pollRets, inDrop, cur, consumedEv, bad>>
-ArmSeq == CHOOSE s \in [1..Cardinality(Arms) -> Arms] : \A i, j \in DOMAIN s : i # j => s[i] # s[j]
+CONSTANTS Arms, NEvents,         \* NEvents[m]: number of events arm m sends (1 = oneshot)
+          K,                     \* K[m]: name of the actor that is the *kernel side* of arm m's yields:
+                                 \* EventSender::subscribe runs on the thread that ran the arm, after the
+                                 \* stack switch, concurrently with whoever resumes the arm again
+          NPoll,                 \* polls by the owner's closure before it leaves the scope
+          Fix8,
+          FixK                   \* FALSE = pinned tree: nothing keeps an arm from running on (and ending) while the
+                                 \* kernel side of its yield is still between the push and `to_wake.take()`, so that
+                                 \* kernel side can touch the EventSender / Cqueue after the scope is gone (finding F19);
+                                 \* TRUE = the resumed arm first waits for its kernel side (as Park does with wait_kernel)
+Owner == "o"
+Kernels == {K[m] : m \in Arms}
+ArmOf(k) == CHOOSE m \in Arms : K[m] = k
+Actors == Arms \cup Kernels \cup {Owner}
+
+VARIABLES evq, cnt, toWake, token,          \* the cqueue; token = the poller's Blocker token
+          pc, sent, cancelled, host,        \* host[m]: "self" (own worker) | "o" (nested on the poller) | "evq" (suspended inside an event)
+          kon,                              \* kon[m]: where the kernel side of m's current yield runs ("self" | "o")
+          armDone, joined,                  \* coroutine really finished / joined by check_panic
+          polls, stage, parked, cur,        \* owner: polls done, "closure"|"drop"|"left", parked?, event in hand
+          got, topRuns, botRuns, consumed, leftEarly, kLeftEarly
+vars == <<evq, cnt, toWake, token, pc, sent, cancelled, host, kon, armDone, joined, polls, stage, parked, cur,
+          got, topRuns, botRuns, consumed, leftEarly, kLeftEarly>>
+
+NoEv == <<"none", "none", 0>>
 Init ==
-  /\ evq = <<>> /\ cnt = 0 /\ toWake = FALSE /\ token = FALSE
-  /\ pcA = [a \in Arms |-> "unborn"] /\ cancelBit = [a \in Arms |-> FALSE]
-  /\ topDone = [a \in Arms |-> FALSE] /\ bottomRuns = [a \in Arms |-> 0]
-  /\ sentEv = [a \in Arms |-> FALSE] /\ host = [a \in Arms |-> "none"]
-  /\ pcO = "add.spawn" /\ added = 0 /\ selectRet = <<"none">> /\ pollRets = <<>>
-  /\ inDrop = FALSE /\ cur = "none" /\ consumedEv = {} /\ bad = "ok"
-Flag(c, m) == bad' = IF bad = "ok" /\ c THEN m ELSE bad
-UNCH_O == UNCHANGED <<pcO, added, selectRet, pollRets, inDrop, cur, consumedEv>>
-GotoA(a, l) == pcA' = [pcA EXCEPT ![a] = l]
-\* an arm runs either on a worker (independently) or nested on the poller's thread
-CanStep(a) == host[a] = "worker" \/ (host[a] = "poller" /\ pcO = "poll.in_bottom" /\ cur = a)
+  /\ evq = <<>> /\ cnt = Cardinality(Arms) /\ toWake = FALSE /\ token = FALSE
+  /\ pc = [a \in Actors |-> IF a = Owner THEN "cqo.poll" ELSE IF a \in Kernels THEN "idle" ELSE "cqa.top"]
+  /\ kon = [m \in Arms |-> "self"]
+  /\ sent = [m \in Arms |-> 0] /\ cancelled = [m \in Arms |-> FALSE]
+  /\ host = [m \in Arms |-> "self"]
+  /\ armDone = [m \in Arms |-> FALSE] /\ joined = [m \in Arms |-> FALSE]
+  /\ polls = 0 /\ stage = "closure" /\ parked = FALSE /\ cur = NoEv
+  /\ got = <<>> /\ topRuns = [m \in Arms |-> 0] /\ botRuns = [m \in Arms |-> 0]
+  /\ consumed = {} /\ leftEarly = FALSE /\ kLeftEarly = FALSE
 
-ATop(a) ==
-  /\ pcA[a] = "top" /\ CanStep(a) /\ topDone' = [topDone EXCEPT ![a] = TRUE] /\ GotoA(a, "es.check_cancel")
-  /\ UNCHANGED <<evq, cnt, toWake, token, cancelBit, bottomRuns, sentEv, host, bad>> /\ UNCH_O
-ACheckCancel(a) ==      \* EventSender::send: cancel.check_cancel() -> Cancel panic -> arm unwinds
-  /\ pcA[a] = "es.check_cancel" /\ CanStep(a)
-  /\ GotoA(a, IF cancelBit[a] THEN "drop.push_done" ELSE "es.yield")
-  /\ UNCHANGED <<evq, cnt, toWake, token, cancelBit, topDone, bottomRuns, sentEv, host, bad>> /\ UNCH_O
-AYield(a) ==            \* yield_with(self): short-circuit if cancelled (yield_back ignores it!)
-  /\ pcA[a] = "es.yield" /\ CanStep(a)
-  /\ IF cancelBit[a] THEN GotoA(a, "bottom") /\ UNCHANGED host
-                     ELSE GotoA(a, "sub.push_event") /\ host' = [host EXCEPT ![a] = "kernel"]
-  /\ UNCHANGED <<evq, cnt, toWake, token, cancelBit, topDone, bottomRuns, sentEv, bad>> /\ UNCH_O
-KPush(a) ==             \* worker side: subscribe pushes the event with the coroutine inside
-  /\ pcA[a] = "sub.push_event" /\ evq' = Append(evq, <<"Normal", a>>) /\ sentEv' = [sentEv EXCEPT ![a] = TRUE]
-  /\ GotoA(a, "sub.wake")
-  /\ UNCHANGED <<cnt, toWake, token, cancelBit, topDone, bottomRuns, host, bad>> /\ UNCH_O
-KWake(a) ==
-  /\ pcA[a] = "sub.wake" /\ GotoA(a, "in_event") /\ host' = [host EXCEPT ![a] = "none"]
-  /\ IF toWake THEN toWake' = FALSE /\ token' = TRUE ELSE UNCHANGED <<toWake, token>>
-  /\ UNCHANGED <<evq, cnt, cancelBit, topDone, bottomRuns, sentEv, bad>> /\ UNCH_O
-ABottom(a) ==
-  /\ pcA[a] = "bottom" /\ CanStep(a) /\ bottomRuns' = [bottomRuns EXCEPT ![a] = @ + 1]
-  \* observation (b) of DESIGN C16: when a cancel lands between check_cancel and yield_with the
-  \* bottom half runs although no event was ever sent.  The property as stated does not forbid
-  \* it (the final drain runs bottom halves of non-selected arms anyway), so it is recorded in
-  \* `unsentBottom`-style diagnostics only, not flagged.
-  /\ GotoA(a, "drop.push_done")
-  /\ UNCHANGED <<evq, cnt, toWake, token, cancelBit, topDone, sentEv, host, bad>> /\ UNCH_O
-ADropPush(a) ==
-  /\ pcA[a] = "drop.push_done" /\ CanStep(a) /\ evq' = Append(evq, <<"Done", a>>) /\ GotoA(a, "drop.dec_cnt")
-  /\ UNCHANGED <<cnt, toWake, token, cancelBit, topDone, bottomRuns, sentEv, host, bad>> /\ UNCH_O
-ADropDec(a) ==
-  /\ pcA[a] = "drop.dec_cnt" /\ CanStep(a) /\ cnt' = cnt - 1 /\ GotoA(a, "drop.wake")
-  /\ UNCHANGED <<evq, toWake, token, cancelBit, topDone, bottomRuns, sentEv, host, bad>> /\ UNCH_O
-ADropWake(a) ==
-  /\ pcA[a] = "drop.wake" /\ CanStep(a) /\ GotoA(a, "ended")
-  /\ IF toWake THEN toWake' = FALSE /\ token' = TRUE ELSE UNCHANGED <<toWake, token>>
-  /\ UNCHANGED <<evq, cnt, cancelBit, topDone, bottomRuns, sentEv, host, bad>> /\ UNCH_O
+Goto(a, l) == pc' = [pc EXCEPT ![a] = l]
+UNCH_Q == UNCHANGED <<evq, cnt, toWake, token>>
+UNCH_O == UNCHANGED <<polls, stage, parked, cur>>
+UNCH_A == UNCHANGED <<sent, cancelled, host, kon, armDone, joined>>
+UNCH_G == UNCHANGED <<got, topRuns, botRuns, consumed, leftEarly, kLeftEarly>>
 
-(* owner *)
-UNCH_A == UNCHANGED <<pcA, cancelBit, topDone, bottomRuns, sentEv, host>>
-OSpawn ==
-  /\ pcO = "add.spawn" /\ LET a == ArmSeq[added + 1] IN
-       /\ pcA' = [pcA EXCEPT ![a] = "top"] /\ host' = [host EXCEPT ![a] = "worker"]
-  /\ pcO' = "add.inc_cnt"
-  /\ UNCHANGED <<evq, cnt, toWake, token, cancelBit, topDone, bottomRuns, sentEv, added, selectRet, pollRets, inDrop, cur, consumedEv, bad>>
-OIncCnt ==
-  /\ pcO = "add.inc_cnt" /\ cnt' = cnt + 1 /\ added' = added + 1
-  /\ pcO' = IF added + 1 < Cardinality(Arms) THEN "add.spawn" ELSE "poll.pop1"
-  /\ UNCHANGED <<evq, toWake, token, selectRet, pollRets, inDrop, cur, consumedEv, bad>> /\ UNCH_A
-PollReturn(r) ==        \* poll returns r; select! takes the first result, drop keeps polling
-  /\ pollRets' = Append(pollRets, r)
-  /\ IF ~inDrop
-       THEN /\ selectRet' = r /\ inDrop' = TRUE /\ pcO' = "drop.cancel_all"
-       ELSE /\ UNCHANGED <<selectRet, inDrop>>
-            /\ pcO' = IF r = <<"Finished">> THEN "left" ELSE "poll.pop1"
-RunEv(ev) ==            \* run_ev!: Done -> check_panic, continue;  Normal -> continue_bottom, return
-  IF ev[1] = "Done"
-    THEN /\ pcO' = "poll.check_panic" /\ cur' = ev[2]     \* selectors[id].take().join(): waits for the arm
-         /\ UNCHANGED <<consumedEv, pollRets, selectRet, inDrop, pcA, host>>
-    ELSE /\ cur' = ev[2] /\ consumedEv' = consumedEv \cup {ev[2]} /\ pcO' = "poll.in_bottom"
-         /\ pcA' = [pcA EXCEPT ![ev[2]] = "bottom"] /\ host' = [host EXCEPT ![ev[2]] = "poller"]
-         /\ UNCHANGED <<pollRets, selectRet, inDrop>>
-OPop1 ==
-  /\ pcO = "poll.pop1"
-  /\ IF evq # <<>> THEN evq' = Tail(evq) /\ RunEv(Head(evq))
-                   ELSE UNCHANGED <<evq, cur, consumedEv, pollRets, selectRet, inDrop, pcA, host>> /\ pcO' = "poll.load_cnt"
-  /\ UNCHANGED <<cnt, toWake, token, cancelBit, topDone, bottomRuns, sentEv, added, bad>>
-OLoadCnt ==
-  /\ pcO = "poll.load_cnt"
+\* to_wake.take() + unpark of the poller: a parked poller is resumed at once, otherwise the token stays
+WakePoller(taker, next) ==
+  IF toWake
+    THEN /\ toWake' = FALSE
+         /\ IF pc[Owner] = "parked" /\ parked
+              THEN parked' = FALSE /\ UNCHANGED token /\ pc' = [pc EXCEPT ![taker] = next, ![Owner] = "blk.park.ret"]
+              ELSE token' = TRUE /\ UNCHANGED parked /\ Goto(taker, next)
+    ELSE UNCHANGED <<toWake, token, parked>> /\ Goto(taker, next)
+
+(* ------------------------------- arms ------------------------------- *)
+\* the top half has run; send() begins
+ArmTop(m) ==
+  /\ pc[m] = "cqa.top"
+  /\ topRuns' = [topRuns EXCEPT ![m] = @ + 1] /\ Goto(m, "cq.send.check")
+  /\ UNCH_Q /\ UNCH_O /\ UNCH_A /\ UNCHANGED <<got, botRuns, consumed, leftEarly, kLeftEarly>>
+\* check_cancel(): a cancelled arm panics (Cancel) and unwinds: EventSender::drop
+SendCheck(m) ==
+  /\ pc[m] = "cq.send.check"
+  /\ Goto(m, IF cancelled[m] THEN "cq.done.push" ELSE "cq.send.yield")
+  /\ UNCH_Q /\ UNCH_O /\ UNCH_A /\ UNCH_G
+\* yield_with(): a cancel that arrived after the check makes it return at once without publishing
+\* the event (yield_back ignores the cancel): the bottom half then runs outside any poll
+SendYield(m) ==
+  /\ pc[m] = "cq.send.yield"
+  /\ pc[K[m]] = "idle"              \* (a second yield while the kernel side of the first is still at work is not modelled)
+  /\ IF cancelled[m]
+       THEN Goto(m, "cqa.bottom") /\ UNCHANGED kon
+       ELSE /\ pc' = [pc EXCEPT ![m] = "switched", ![K[m]] = "cqsub.push"]
+            /\ kon' = [kon EXCEPT ![m] = host[m]]
+  /\ sent' = [sent EXCEPT ![m] = @ + 1]
+  /\ UNCH_Q /\ UNCH_O /\ UNCHANGED <<cancelled, host, armDone, joined>> /\ UNCH_G
+\* kernel side (on whichever thread ran the arm: its worker, or the poller when nested)
+\* from the push on the suspended arm sits inside the event and whoever pops it may resume it
+SubPush(k) ==
+  /\ k \in Kernels /\ pc[k] = "cqsub.push"
+  /\ LET m == ArmOf(k) IN
+       /\ evq' = Append(evq, <<"Normal", m, sent[m]>>)
+       /\ pc' = [pc EXCEPT ![k] = "cqsub.take", ![m] = "in_event"]
+       /\ host' = [host EXCEPT ![m] = "evq"]
+  /\ UNCHANGED <<cnt, toWake, token, sent, cancelled, kon, armDone, joined>> /\ UNCH_O /\ UNCH_G
+SubTake(k) ==
+  /\ k \in Kernels /\ pc[k] = "cqsub.take"
+  /\ LET m == ArmOf(k) IN
+       IF kon[m] = Owner
+         THEN \* the arm was nested on the poller: this runs on the poller's own thread, which then goes on
+              /\ toWake' = FALSE /\ token' = (token \/ toWake) /\ UNCHANGED parked
+              /\ pc' = [pc EXCEPT ![k] = "idle", ![Owner] = "poll.ret"]
+         ELSE WakePoller(k, "idle")
+  /\ kLeftEarly' = (kLeftEarly \/ stage = "left")    \* touches the EventSender / Cqueue after the owner has left the scope
+  /\ UNCHANGED <<evq, cnt, polls, stage, cur, got, topRuns, botRuns, consumed, leftEarly>> /\ UNCH_A
+\* the bottom half has run (nested on the poller unless the event was never published)
+\* internal: back in send() after the resume.  Repaired code: wait until the kernel side of this yield
+\* has made its last use of the EventSender (point cq.send.spin_kernel inside the wait loop)
+SendResumed(m) ==
+  /\ pc[m] = "send.resumed"
+  /\ Goto(m, IF FixK /\ pc[K[m]] # "idle" THEN "cq.send.spin_kernel" ELSE "cqa.bottom")
+  /\ UNCH_Q /\ UNCH_O /\ UNCH_A /\ UNCH_G
+SpinKernel(m) ==
+  /\ pc[m] = "cq.send.spin_kernel"
+  /\ Goto(m, IF pc[K[m]] # "idle" THEN "cq.send.spin_kernel" ELSE "cqa.bottom")
+  /\ UNCH_Q /\ UNCH_O /\ UNCH_A /\ UNCH_G
+ArmBottom(m) ==
+  /\ pc[m] = "cqa.bottom"
+  /\ botRuns' = [botRuns EXCEPT ![m] = @ + 1]
+  /\ Goto(m, IF sent[m] < NEvents[m] THEN "cqa.top" ELSE "cq.done.push")
+  /\ UNCH_Q /\ UNCH_O /\ UNCH_A /\ UNCHANGED <<got, topRuns, consumed, leftEarly, kLeftEarly>>
+\* EventSender::drop
+DonePush(m) ==
+  /\ pc[m] = "cq.done.push"
+  /\ evq' = Append(evq, <<"Done", m, 0>>) /\ Goto(m, "cq.done.dec")
+  /\ UNCHANGED <<cnt, toWake, token>> /\ UNCH_O /\ UNCH_A /\ UNCH_G
+DoneDec(m) ==
+  /\ pc[m] = "cq.done.dec"
+  /\ cnt' = cnt - 1 /\ Goto(m, "cq.done.take")
+  /\ UNCHANGED <<evq, toWake, token>> /\ UNCH_O /\ UNCH_A /\ UNCH_G
+DoneTake(m) ==
+  /\ pc[m] = "cq.done.take"
+  /\ leftEarly' = (leftEarly \/ stage = "left")          \* touches the Cqueue after the owner has left the scope
+  /\ toWake' = FALSE
+  /\ IF toWake
+       THEN \* a waker was registered: w.unpark() follows (a point of its own, in the arm's context)
+            /\ Goto(m, "blk.unpark") /\ UNCHANGED <<armDone, host>>
+       ELSE IF host[m] = Owner
+              THEN /\ pc' = [pc EXCEPT ![m] = "finished", ![Owner] = "poll.ret"]
+                   /\ armDone' = [armDone EXCEPT ![m] = TRUE] /\ host' = [host EXCEPT ![m] = "gone"]
+              ELSE Goto(m, "arm.exit") /\ UNCHANGED <<armDone, host>>
+  /\ UNCHANGED <<evq, cnt, token, polls, stage, parked, cur, sent, cancelled, kon, joined, got, topRuns, botRuns, consumed, kLeftEarly>>
+\* Blocker::unpark() of the poller by an arm that is ending
+ArmUnpark(m) ==
+  /\ pc[m] = "blk.unpark"
+  /\ LET next == IF host[m] = Owner THEN "finished" ELSE "arm.exit" IN
+       IF pc[Owner] = "parked" /\ parked
+         THEN parked' = FALSE /\ UNCHANGED token /\ pc' = [pc EXCEPT ![m] = next, ![Owner] = "blk.park.ret"]
+         ELSE /\ token' = TRUE /\ UNCHANGED parked
+              /\ pc' = IF host[m] = Owner THEN [pc EXCEPT ![m] = next, ![Owner] = "poll.ret"] ELSE [pc EXCEPT ![m] = next]
+  /\ armDone' = [armDone EXCEPT ![m] = (host[m] = Owner)]
+  /\ host' = [host EXCEPT ![m] = IF host[m] = Owner THEN "gone" ELSE host[m]]
+  /\ UNCHANGED <<evq, cnt, toWake, polls, stage, cur, sent, cancelled, kon, joined>> /\ UNCH_G
+\* internal: the coroutine's epilogue on its own worker: now join() can return
+ArmExit(m) ==
+  /\ pc[m] = "arm.exit"
+  /\ armDone' = [armDone EXCEPT ![m] = TRUE] /\ Goto(m, "finished")
+  /\ host' = [host EXCEPT ![m] = "gone"]
+  /\ UNCH_Q /\ UNCH_O /\ UNCHANGED <<sent, cancelled, kon, joined>> /\ UNCH_G
+
+(* ------------------------------- owner / poller ------------------------------- *)
+\* the owner's closure decides to poll again or to leave the scope
+OwnerPoll ==
+  /\ pc[Owner] = "cqo.poll"
+  /\ IF stage = "closure" /\ polls >= NPoll
+       THEN stage' = "drop" /\ Goto(Owner, "cq.drop.cancel")
+       ELSE UNCHANGED stage /\ Goto(Owner, "cq.poll.pop")
+  /\ UNCH_Q /\ UNCH_A /\ UNCHANGED <<polls, parked, cur>> /\ UNCH_G
+\* run_ev!: a popped event in hand
+Handle(ev, viaReg) ==
+  IF ev[1] = "Done" THEN Goto(Owner, "cq.check_panic") ELSE Goto(Owner, "cq.bottom")
+PollPop ==
+  /\ pc[Owner] = "cq.poll.pop"
+  /\ IF evq # <<>>
+       THEN evq' = Tail(evq) /\ cur' = Head(evq) /\ Handle(Head(evq), FALSE)
+       ELSE UNCHANGED <<evq, cur>> /\ Goto(Owner, "cq.poll.load_cnt")
+  /\ UNCHANGED <<cnt, toWake, token, polls, stage, parked>> /\ UNCH_A /\ UNCH_G
+PollLoadCnt ==
+  /\ pc[Owner] = "cq.poll.load_cnt"
   /\ IF cnt = 0
-       THEN IF Fix8 /\ evq # <<>>
-              THEN pcO' = "poll.pop1" /\ UNCHANGED <<pollRets, selectRet, inDrop, bad>>
-              ELSE PollReturn(<<"Finished">>) /\ Flag(evq # <<>>, "Finished returned with an unconsumed event in the queue")
-       ELSE pcO' = "poll.reg" /\ UNCHANGED <<pollRets, selectRet, inDrop, bad>>
-  /\ UNCHANGED <<evq, cnt, toWake, token, added, cur, consumedEv>> /\ UNCH_A
-OReg ==
-  /\ pcO = "poll.reg" /\ toWake' = TRUE /\ token' = FALSE /\ pcO' = "poll.pop2"
-  /\ UNCHANGED <<evq, cnt, added, selectRet, pollRets, inDrop, cur, consumedEv, bad>> /\ UNCH_A
-OPop2 ==
-  /\ pcO = "poll.pop2"
-  /\ IF evq # <<>> THEN evq' = Tail(evq) /\ toWake' = FALSE /\ RunEv(Head(evq))
-                   ELSE /\ UNCHANGED <<evq, cur, consumedEv, pollRets, selectRet, inDrop, pcA, host>>
-                        /\ IF Fix13 /\ cnt = 0 THEN toWake' = FALSE /\ pcO' = "poll.pop1"
-                                                ELSE UNCHANGED toWake /\ pcO' = "poll.park"
-  /\ UNCHANGED <<cnt, token, cancelBit, topDone, bottomRuns, sentEv, added, bad>>
-OPark ==
-  /\ pcO = "poll.park" /\ token /\ token' = FALSE /\ pcO' = "poll.pop1"
-  /\ UNCHANGED <<evq, cnt, toWake, added, selectRet, pollRets, inDrop, cur, consumedEv, bad>> /\ UNCH_A
-OCheckPanic ==          \* JoinHandle::join() of the arm named by the Done event
-  /\ pcO = "poll.check_panic" /\ pcA[cur] = "ended" /\ pcO' = "poll.pop1"
-  /\ UNCHANGED <<evq, cnt, toWake, token, added, selectRet, pollRets, inDrop, cur, consumedEv, bad>> /\ UNCH_A
-OBottomDone ==          \* continue_bottom returned: the nested arm ended (oneshot) -> return Ok(ev)
-  /\ pcO = "poll.in_bottom" /\ pcA[cur] = "ended"
-  /\ PollReturn(<<"Ok", cur>>) /\ host' = [host EXCEPT ![cur] = "none"]
-  /\ UNCHANGED <<evq, cnt, toWake, token, added, cur, consumedEv, bad, pcA, cancelBit, topDone, bottomRuns, sentEv>>
-ODropCancel ==          \* Cqueue::drop: cancel every arm that is not done
-  /\ pcO = "drop.cancel_all"
-  /\ cancelBit' = [a \in Arms |-> IF pcA[a] # "ended" THEN TRUE ELSE cancelBit[a]]
-  /\ pcO' = "poll.pop1"
-  /\ UNCHANGED <<evq, cnt, toWake, token, added, selectRet, pollRets, inDrop, cur, consumedEv, bad, pcA, topDone, bottomRuns, sentEv, host>>
-AllOver == pcO = "left" /\ \A a \in Arms : pcA[a] \in {"ended", "in_event"}
+       THEN IF Fix8 THEN Goto(Owner, "cq.poll.lastpop") ELSE Goto(Owner, "poll.finished")
+       ELSE Goto(Owner, "cq.poll.reg")
+  /\ UNCH_Q /\ UNCH_O /\ UNCH_A /\ UNCH_G
+\* repaired code only: every arm has ended, so every Done event has been pushed: pop once more
+PollLastPop ==
+  /\ pc[Owner] = "cq.poll.lastpop"
+  /\ IF evq # <<>>
+       THEN evq' = Tail(evq) /\ cur' = Head(evq) /\ Handle(Head(evq), FALSE)
+       ELSE UNCHANGED <<evq, cur>> /\ Goto(Owner, "poll.finished")
+  /\ UNCHANGED <<cnt, toWake, token, polls, stage, parked>> /\ UNCH_A /\ UNCH_G
+PollReg ==
+  /\ pc[Owner] = "cq.poll.reg"
+  /\ toWake' = TRUE /\ token' = FALSE /\ Goto(Owner, "cq.poll.repop")
+  /\ UNCHANGED <<evq, cnt>> /\ UNCH_O /\ UNCH_A /\ UNCH_G
+PollRepop ==
+  /\ pc[Owner] = "cq.poll.repop"
+  /\ IF evq # <<>>
+       THEN evq' = Tail(evq) /\ cur' = Head(evq) /\ Goto(Owner, "cq.poll.unreg")
+       ELSE UNCHANGED <<evq, cur>> /\ Goto(Owner, "blk.park")
+  /\ UNCHANGED <<cnt, toWake, token, polls, stage, parked>> /\ UNCH_A /\ UNCH_G
+PollUnreg ==
+  /\ pc[Owner] = "cq.poll.unreg"
+  /\ toWake' = FALSE /\ Handle(cur, TRUE)
+  /\ UNCHANGED <<evq, cnt, token>> /\ UNCH_O /\ UNCH_A /\ UNCH_G
+ParkEnter ==
+  /\ pc[Owner] = "blk.park"
+  /\ IF token THEN token' = FALSE /\ Goto(Owner, "blk.park.ret") /\ UNCHANGED parked
+              ELSE parked' = TRUE /\ Goto(Owner, "parked") /\ UNCHANGED token
+  /\ UNCHANGED <<evq, cnt, toWake, polls, stage, cur>> /\ UNCH_A /\ UNCH_G
+ParkReturn ==
+  /\ pc[Owner] = "blk.park.ret"
+  /\ token' = FALSE /\ Goto(Owner, "cq.poll.pop")
+  /\ UNCHANGED <<evq, cnt, toWake>> /\ UNCH_O /\ UNCH_A /\ UNCH_G
+\* continue_bottom(): the arm inside the event is resumed *on the poller's stack*
+Bottom ==
+  /\ pc[Owner] = "cq.bottom"
+  /\ LET m == cur[2] IN
+       /\ host' = [host EXCEPT ![m] = Owner]
+       /\ pc' = [pc EXCEPT ![Owner] = "hosting", ![m] = "send.resumed"]
+       /\ consumed' = consumed \cup {<<m, cur[3]>>}
+  /\ UNCH_Q /\ UNCH_O /\ UNCHANGED <<sent, cancelled, kon, armDone, joined, got, topRuns, botRuns, leftEarly, kLeftEarly>>
+\* internal: the nested arm has yielded or finished: poll returns Ok(ev)
+PollRet ==
+  /\ pc[Owner] = "poll.ret"
+  /\ cur' = NoEv
+  /\ IF stage = "drop"      \* Cqueue::drop just polls again
+       THEN Goto(Owner, "cq.poll.pop") /\ UNCHANGED <<got, polls>>
+       ELSE Goto(Owner, "cqo.poll") /\ got' = Append(got, cur[2]) /\ polls' = polls + 1
+  /\ UNCH_Q /\ UNCH_A /\ UNCHANGED <<stage, parked, topRuns, botRuns, consumed, leftEarly, kLeftEarly>>
+\* check_panic(id): join the arm (blocks until its coroutine has really finished), then poll goes on
+CheckPanic ==
+  /\ pc[Owner] = "cq.check_panic"
+  /\ armDone[cur[2]]
+  /\ joined' = [joined EXCEPT ![cur[2]] = TRUE] /\ cur' = NoEv /\ Goto(Owner, "cq.poll.pop")
+  /\ UNCH_Q /\ UNCHANGED <<polls, stage, parked, sent, cancelled, host, kon, armDone>> /\ UNCH_G
+\* internal: poll returned Err(Finished)
+PollFinished ==
+  /\ pc[Owner] = "poll.finished"
+  /\ IF stage = "drop" THEN stage' = "left" /\ Goto(Owner, "done") /\ UNCHANGED polls
+                       ELSE UNCHANGED stage /\ polls' = polls + 1 /\ Goto(Owner, "cqo.poll")
+  /\ UNCH_Q /\ UNCH_A /\ UNCHANGED <<parked, cur>> /\ UNCH_G
+\* Cqueue::drop: cancel every select coroutine that is not done, then poll until Finished
+DropCancel ==
+  /\ pc[Owner] = "cq.drop.cancel"
+  /\ cancelled' = [m \in Arms |-> cancelled[m] \/ ~armDone[m]]
+  /\ Goto(Owner, "cq.poll.pop")
+  /\ UNCH_Q /\ UNCH_O /\ UNCHANGED <<sent, host, kon, armDone, joined>> /\ UNCH_G
+
+AStep(m) == ArmTop(m) \/ SendCheck(m) \/ SendYield(m) \/ SpinKernel(m) \/ ArmBottom(m)
+            \/ DonePush(m) \/ DoneDec(m) \/ DoneTake(m) \/ ArmUnpark(m)
+OStep == OwnerPoll \/ PollPop \/ PollLoadCnt \/ PollLastPop \/ PollReg \/ PollRepop \/ PollUnreg \/ ParkEnter
+         \/ ParkReturn \/ Bottom \/ CheckPanic \/ DropCancel
+Step(a) == IF a = Owner THEN OStep ELSE IF a \in Kernels THEN (SubPush(a) \/ SubTake(a)) ELSE AStep(a)
+Internal(a) == IF a = Owner THEN (PollRet \/ PollFinished) ELSE IF a \in Kernels THEN FALSE ELSE (ArmExit(a) \/ SendResumed(a))
+InternalPcs == {"poll.ret", "poll.finished", "arm.exit", "send.resumed"}
+Obs(a) == -1
+Cancel(a) == FALSE /\ UNCHANGED vars
+
+AllOver == pc[Owner] = "done" /\ \A m \in Arms : pc[m] = "finished" /\ pc[K[m]] = "idle"
 Stutter == AllOver /\ UNCHANGED vars
-Next == \/ \E a \in Arms : ATop(a) \/ ACheckCancel(a) \/ AYield(a) \/ KPush(a) \/ KWake(a) \/ ABottom(a)
-                           \/ ADropPush(a) \/ ADropDec(a) \/ ADropWake(a)
-        \/ OSpawn \/ OIncCnt \/ OPop1 \/ OLoadCnt \/ OReg \/ OPop2 \/ OPark \/ OCheckPanic \/ OBottomDone \/ ODropCancel
-        \/ Stutter
+Next == (\E a \in Actors : Step(a) \/ Internal(a)) \/ Stutter
 Spec == Init /\ [][Next]_vars
 -----------------------------------------------------------------------------
-NothingBad == bad = "ok"
-BottomOnce == \A a \in Arms : bottomRuns[a] <= 1
-BottomAfterOwnTop == \A a \in Arms : bottomRuns[a] > 0 => topDone[a]
-SelectReturnsRunArm == (selectRet[1] = "Ok") => (topDone[selectRet[2]] /\ bottomRuns[selectRet[2]] = 1)
-SelectNeverFinished == selectRet # <<"Finished">>      \* select!: `_ => unreachable!("select error")`
-\* when the owner has left the scope no arm is still executing (an arm left suspended inside an
-\* unconsumed event would be a leak: flagged separately)
-NoArmRunningAtReturn == pcO = "left" => \A a \in Arms : pcA[a] = "ended"
-\* weaker: the arm's *own code* (top/bottom halves) is over, but it may still be inside
-\* EventSender::drop, touching the Cqueue after the decrement that released the owner (F12)
-NoArmBodyRunningAtReturn == pcO = "left" => \A a \in Arms : pcA[a] \in {"ended", "drop.wake"}
+\* every event is consumed at most once, and its bottom half runs at that moment
+EventOnce == \A m \in Arms : botRuns[m] <= topRuns[m] /\ botRuns[m] <= NEvents[m] /\ topRuns[m] <= NEvents[m]
+\* the scope is not left while a select coroutine is still running / still touches the Cqueue (C14, C16)
+NoArmRunningAtReturn == (stage = "left" => \A m \in Arms : armDone[m]) /\ ~leftEarly
+\* ... nor while the kernel side of some arm's yield is still at work on the EventSender / Cqueue
+NoKernelAtReturn == (stage = "left" => \A m \in Arms : pc[K[m]] = "idle") /\ ~kLeftEarly
+\* poll reports Finished only when every select coroutine has ended *and been joined*
+FinishedOnlyWhenAllEnded == pc[Owner] = "poll.finished" => \A m \in Arms : pc[m] \in {"finished", "arm.exit", "cq.done.take"} /\ cnt = 0
+FinishedMeansJoined == pc[Owner] = "poll.finished" => \A m \in Arms : joined[m]
+\* what a poll returns is the token of an arm whose top and bottom half have both run
+SelectReturnsRunArm == \A i \in DOMAIN got : topRuns[got[i]] >= 1 /\ botRuns[got[i]] >= 1
 =============================================================================
